@@ -182,6 +182,10 @@ def ops_grid(cfgname):
     add("delete-noreply-none", "delete", "h1", noreply=None)
     add("touch-noreply-none", "touch", "h1", 5, noreply=None)
     add("set-noreply-none", "set", "k-new", b"v", noreply=None)
+    # the documented aliases are operations too
+    add("get_multi", "get_multi", ["h1", "m1", "num"])
+    add("set_multi", "set_multi", {"a": b"1", "b": b"2"}, noreply=False)
+    add("delete_multi", "delete_multi", ["h1", "m1"], noreply=False)
     add("set-badexpire", "set", "k", b"v", expire="soon")
     add("incr-baddelta", "incr", "num", "1")
     add("get_many", "get_many", ["h1", "m1", "num"])
